@@ -36,6 +36,41 @@ PLAN = {
         "quick": [S("hook-default")],
         "thorough": [S("hook-default")],
     },
+    "C03": {
+        "quick": [S("hook-explore")],
+        "thorough": [S("hook-explore"), S("m3-none", tag="nosimd")],
+    },
+    "C11": {
+        "quick": [S("hook-explore")],
+        "thorough": [S("hook-explore"), S("hookdbg-explore", tag="dbg", only="histories-from")],
+    },
+    "C12": {
+        "quick": [S("hook-default")],
+        "thorough": [S("hook-default")],
+    },
+    "C17": {
+        "quick": [S("hook-default"), S("m2-default-unsafe", tag="children"),
+                  S("hookdbg-explore", tag="dbg-c11", check="C11", only="histories-from"),
+                  S("hookdbg-explore", tag="dbg-c03", check="C03", only="histories"),
+                  S("hookdbg-explore", tag="dbg-c01", check="C01", only="prefix-lengths"),
+                  S("hookdbg-explore", tag="dbg-c01q", check="C01", only="qratio-arith"),
+                  S("hookdbg-explore", tag="dbg-c05", check="C05", only="dev1"),
+                  S("hookdbg-explore", tag="dbg-c06", check="C06"),
+                  S("hookdbg-explore", tag="dbg-c12", check="C12", only="scripts-small")],
+        "thorough": [S("hook-default"), S("hook-unsafe", tag="hook-unsafe"), S("m2-default-unsafe", tag="children"), S("m8-static-avx2-unsafe", tag="children-avx2"),
+                  S("dbg-unsafe", tag="children-dbg"),
+                  S("hookdbg-explore", tag="dbg-c11", check="C11"),
+                  S("hookdbg-explore", tag="dbg-c03", check="C03"),
+                  S("hookdbg-explore", tag="dbg-c01", check="C01"),
+                  S("hookdbg-explore", tag="dbg-c02", check="C02", only="body-w1"),
+                  S("hookdbg-explore", tag="dbg-c04", check="C04"),
+                  S("hookdbg-explore", tag="dbg-c05", check="C05"),
+                  S("hookdbg-explore", tag="dbg-c06", check="C06"),
+                  S("hookdbg-explore", tag="dbg-c09", check="C09", only="generated"),
+                  S("hookdbg-explore", tag="dbg-c10", check="C10", only="lattice"),
+                  S("hookdbg-explore", tag="dbg-c12", check="C12"),
+                  S("hookdbg-explore", tag="dbg-c14", check="C14")],
+    },
     "C13": {
         "quick": [S("hook-default")],
         "thorough": [S("hook-default"), S("m3-none", tag="tables")],
@@ -92,6 +127,30 @@ LEVEL_TEXT = {
         "exhaustive enumeration of the 2^32 length domain for the classification, and of generator states x all 32 option settings for the lattice law",
         "DataLengthValidity is compared with the reference on every u32 for the three bucket counts; on every visited generator state (all prefixes, all short inputs, all injected bucket compositions x 4 length classes, injected lengths around every boundary) the 32 real finalizations are checked pairwise along the permissiveness order and against the published classification.",
         "DESIGN.md section 2, C10", "Lattice law uses only the real outputs; the length law uses the crate's own published classification as the property states.", []),
+    "C03": _lt(
+        "explicit-state model checking (stateright BFS) of update/finalize/clone histories on the real generator with a lock-step reference, plus exhaustive enumeration of k-cut splits",
+        "The real Generator is the transition system: from every reachable state every piece length of the alphabet, FinalizeAll and CloneSwap are applied; states merge only when the real generators' complete Debug snapshots are equal, so the search covers ALL histories over the piece alphabet up to the horizon (not a bounded number of steps). On every state processed_len and all 32 finalizations must equal the byte-at-a-time reference, now and after each of four suffixes. In addition every split of fixed inputs at up to k cut points is compared with a single update.",
+        "DESIGN.md section 2, C03",
+        "Trusted: stateright's search (run with 1 and 16 threads, unique-state counts equal); Debug text is used only as a merge key (over-fine keys cost time, not soundness). Control flow of update depends on lengths only, so five streams suffice for chunking logic (values are C01's job).",
+        ["update's control flow depends only on piece lengths and the tail fill level"]),
+    "C11": _lt(
+        "explicit-state model checking (stateright BFS) of update/finalize/clone histories on the real generator from injected states just below the 4,224,281,216-byte and 2^32-byte marks, reference counter in u64; thorough: a real >4 GiB feed validates the injected states",
+        "Histories start a few bytes before each mark (state injected through the hook), so every way a piece can start before / end on / straddle / start after a mark is a path of the explored graph; invariants: exact processed_len below 2^32 and None from 2^32, TooLargeInput iff n > MAX under all 32 options, reference result at n <= MAX, no panic (also in a build with overflow checks). The thorough tier feeds a real 2^32+64-byte stream and shows the injection hook is the identity on the really reached states.",
+        "DESIGN.md section 2, C11",
+        "Trusted: injection hook (validated in the thorough tier against a real feed); buckets of the injected states are synthetic (finalize only depends on them through C01's relation).",
+        ["injected start states are representative: update's length logic does not depend on bucket contents"]),
+    "C12": _lt(
+        "deviation-bounded exhaustive enumeration of Read scripts (short reads, interruptions, hard errors, premature EOF) run on the real stream helpers vs hash_buf of the delivered bytes; real files of boundary sizes",
+        "Every reader script with at most d deviations from the default answer (fill the buffer; then 0), over an 11-answer alphabet and 8 content lengths around the 1 MiB buffer, is run to completion through hash_stream_for / hash_stream; the oracle is the property itself (result of hash_buf on exactly the delivered bytes, or the first hard error as IOError).",
+        "DESIGN.md section 2, C12",
+        "Oracle uses hash_buf of the crate itself (judged by C01). Delivered bytes are a prefix of a fixed stream, so the expectation is cached per length.",
+        []),
+    "C17": _lt(
+        "monitors attached to exhaustively enumerated executions: invariant monitor (hook) over complete domains and over contract-violating Read scripts, the other checks' enumerations re-run in a debug-assertions + overflow-checks build with panic classification, and one child process per lying-reader script in builds where invariant!() is a real optimiser assumption",
+        "Model checking decides totality through monitors on every explored execution: (1) with the hook every invariant!() is an observable event in every feature configuration; it is checked on all 2^32 lengths, on every binary value of C06's enumeration, and on every reader script with <= 2 deviations that contains a lie about the bytes read (a false invariant reachable through the safe API is undefined behaviour under feature 'unsafe'); (2) the enumerations of C01, C03, C05, C06, C11, C12 are re-run in a build with debug assertions and overflow checks, where any panic other than the documented bucket-index one is a violation; (3) in the real 'unsafe' build without the hook each lying-reader script runs in its own child process and death by a signal is reported.",
+        "DESIGN.md section 2, C17",
+        "Limits: undefined behaviour is visible only through these monitors (false invariant, panic, signal); raw-pointer SIMD code touches addresses that depend only on fixed-size array references. Non-x86 backends are not compiled here.",
+        ["UB without an observable effect in these builds is not detected"]),
     "C13": _lt(
         "exhaustive enumeration of ordered string pairs over a valid/invalid alphabet vs parse-then-compare",
         "All ordered pairs of a 34-string alphabet per variant (valid in every case/prefix form with one-field twins; invalid in every way the parser distinguishes) through compare_with / compare; result or (side, error) must equal parse-left, parse-right, compare.",
